@@ -61,9 +61,10 @@ inline Plan Gen(uint64_t seed)
                else
                {
                   static const int bias[4][8] = {{0,0,0,1,1,5,5,2}, {0,1,1,1,2,4,5,5}, {1,1,2,2,3,4,5,5}, {0,1,2,3,3,4,5,2}};
-                  cls = bias[sizeBias][wl.below(8)];
+                  cls = bias[sizeBias][wl.below(8)]; if (wl.oneIn(25)) cls = MSGCLS_MANYFIELDS;
                }
-               p.push_back(std::string(((duplex)&&(wl.oneIn((gw == GW_WS) ? 4 : 3))) ? "rmsg " : "msg ") + U(gs) + " " + I(cls));
+               std::string shp; if ((gw == GW_TMPL)&&(cls == MSGCLS_SHAPED)&&(wl.pct(60))) shp = " " + I((int)((seed >> 7) % 10) + (wl.oneIn(4) ? 1 : 0));
+               p.push_back(std::string(((duplex)&&(wl.oneIn((gw == GW_WS) ? 4 : 3))) ? "rmsg " : "msg ") + U(gs) + " " + I(cls) + shp);
             }
             queued++;
          }
@@ -302,7 +303,7 @@ inline void Exec(const Plan & plan, RunResult & res)
          else if (t[1] == "rw") h.b2a.SetSched(true, v);
          else if (t[1] == "sr") h.b2a.SetSched(false, v);
       }
-      else if ((t[0] == "msg")&&(t.size() >= 3)) h.Enqueue(GenMessage(ToU(t[1]), (int) ToI(t[2])));
+      else if ((t[0] == "msg")&&(t.size() >= 3)) h.Enqueue(GenMessage(ToU(t[1]), (int) ToI(t[2]), (t.size() >= 4) ? (int) ToI(t[3]) : -1));
       else if (t[0] == "reset")
       {
          // a reconnect: everything in flight is delivered first (fault-free, bounded), then BOTH ends are Reset() and the run carries on with the same objects
@@ -320,7 +321,7 @@ inline void Exec(const Plan & plan, RunResult & res)
          }
       }
       else if ((t[0] == "rsetenc")&&(t.size() >= 2)) {MessageIOGateway * mg = dynamic_cast<MessageIOGateway *>(h.R()); if ((mg)&&(h.gw != GW_WS)) mg->SetOutgoingEncoding(MUSCLE_MESSAGE_ENCODING_DEFAULT + (int32)(ToU(t[1]) % 10));}
-      else if ((t[0] == "rmsg")&&(t.size() >= 3)&&((h.gw == GW_WS)||(h.gw == GW_BIN)||(h.gw == GW_TMPL))&&(h.R())) {MessageRef m = GenMessage(ToU(t[1]), (int) ToI(t[2])); h.sentBack.push_back(Flat(m)); if (h.R()->AddOutgoingMessage(m).IsError()) Fail("harness", "AddOutgoingMessage failed"); h.res.stats.inc("msgs_sent_reverse");}
+      else if ((t[0] == "rmsg")&&(t.size() >= 3)&&((h.gw == GW_WS)||(h.gw == GW_BIN)||(h.gw == GW_TMPL))&&(h.R())) {MessageRef m = GenMessage(ToU(t[1]), (int) ToI(t[2]), (t.size() >= 4) ? (int) ToI(t[3]) : -1); h.sentBack.push_back(Flat(m)); if (h.R()->AddOutgoingMessage(m).IsError()) Fail("harness", "AddOutgoingMessage failed"); h.res.stats.inc("msgs_sent_reverse");}
       else if ((t[0] == "text")&&(t.size() >= 3))
       {
          Rng r(ToU(t[1]), "text"); MessageRef m = GetMessageFromPool(PR_COMMAND_TEXT_STRINGS);
